@@ -15,6 +15,9 @@ export GOFLAGS=-mod=mod GOPROXY=off GOSUMDB=off GOTOOLCHAIN=local CGO_ENABLED=0
 case "$PROP:$TIER" in
   C01:quick) ARGS="-segs 3";;
   C01:*) ARGS="-segs 4";;
+  C02:*) ARGS="-len 2";;
+  C05:quick) ARGS="-max 32";;
+  C05:*) ARGS="-max 128";;
   C06:quick) ARGS="-len 2 -check remote";;
   C06:*) ARGS="-len 3 -check remote";;
   C07:quick) ARGS="-len 2 -check view";;
